@@ -73,12 +73,12 @@ Proof. exact vshift_wf. Qed.
 Theorem C09_len_preserved_vdiff :
   forall (n : Z) (v : option val) (xs : list val),
     exists s', vdiff n v xs = Ok s' /\ wfb false s' /\ length (elems s') = length xs.
-Proof. intros n v xs. apply lagged_wf. Qed.
+Proof. exact vdiff_wf. Qed.
 
 Theorem C09_len_preserved_vpct_change :
   forall (n : Z) (xs : list val),
     exists s', vpct_change n xs = Ok s' /\ wfb false s' /\ length (elems s') = length xs.
-Proof. intros n xs. apply lagged_wf. Qed.
+Proof. exact vpct_change_wf. Qed.
 
 Theorem C09_len_preserved_fills :
   forall (v : option val) (w lo hi : val) (s : it), wfb false s ->
@@ -105,11 +105,12 @@ Proof. exact vcut_wf. Qed.
 Theorem C09_partitions_well_formed :
   forall (kth : nat) (sort : bool) (xs : list val),
     wfb false (vpartition kth sort xs) /\
-    (sort = false \/ kth + 1 < count_valid xs -> length (elems (vpartition kth sort xs)) = kth + 1) /\
+    length (elems (vpartition kth sort xs)) = kth + 1 /\
     wfb false (varg_partition kth sort xs) /\
     length (elems (varg_partition kth sort xs)) = kth + 1.
 Proof.
-  intros kth sort xs. split; [apply vpartition_wf|]. split; [apply vpartition_len|]. apply varg_partition_wf.
+  intros kth sort xs. destruct (vpartition_wf kth sort xs) as [H1 H2].
+  split; [exact H1|]. split; [exact H2|]. apply varg_partition_wf.
 Qed.
 
 Theorem C09_rolling_iter_well_formed :
@@ -126,6 +127,19 @@ Theorem C09_generators_well_formed :
 Proof.
   intros a b st n. split; [apply linspace_wf|]. split; [apply range_f_wf|]. split; [apply range_i_wf|].
   apply winsorize_wf.
+Qed.
+
+(* the repaired `range` announces (and yields) ceil((b - a) / step) items, none when nothing lies before b *)
+Theorem C09_range_count :
+  forall (a b st : Z), (st <> 0)%Z ->
+    length (elems (range_f a b st)) = range_count a b st /\
+    (range_empty a b st = true -> range_count a b st = 0) /\
+    (range_empty a b st = false ->
+       let c := Z.of_nat (range_count a b st) in
+       (0 < c /\ Z.abs st * (c - 1) < Z.abs (b - a) <= Z.abs st * c)%Z).
+Proof.
+  intros a b st Hst. split; [|exact (range_count_spec a b st Hst)].
+  cbn. rewrite map_length, seq_length. lia.
 Qed.
 
 (* (5) the raw collector (allocate hint; write the items through a moving pointer; set_len hint):
@@ -182,6 +196,10 @@ Example C09_example_shift_band :
   /\ (exists s', vshift 5 None (IList [VZ 1; VZ 2; VZ 3]) = Ok s' /\ drain s' = [VNull; VNull; VNull])
   /\ (exists s', vdiff (-1) None [VZ 4; VZ 1; VZ 12] = Ok s' /\ drain s' = [VZ 3; VZ (-11); VNull])
   /\ drain (vpartition 4 false [VZ 3; VNull; VZ 1]) = [VZ 3; VZ 1; VNull; VNull; VNull]
+  /\ (exists s', vdiff 0 None [VZ 1; VNull] = Ok s' /\ drain s' = [VZ 0; VNull])
+  /\ (exists s', vdiff 1 (Some (VZ 9)) [VZ 4; VZ 1; VZ 12] = Ok s' /\ drain s' = [VZ 9; VZ (-3); VZ 11])
+  /\ drain (vpartition 3 true [VZ 3; VNull]) = [VZ 3; VNull; VNull; VNull]
+  /\ (exists s', range_i 0 5 2 = Ok s' /\ drain s' = [VZ 0; VZ 2; VZ 4])
   /\ (exists s', rolling_custom_iter 2 [VZ 5; VZ 6] = Ok s' /\ length (drain s') = 2)
   /\ rolling_custom_iter 0 [VZ 5] = Panic Underflow.
 Proof. vm_compute. repeat split; eexists; split; reflexivity. Qed.
@@ -202,6 +220,7 @@ Print Assumptions C09_vcut_well_formed.
 Print Assumptions C09_partitions_well_formed.
 Print Assumptions C09_rolling_iter_well_formed.
 Print Assumptions C09_generators_well_formed.
+Print Assumptions C09_range_count.
 Print Assumptions C09_collect_safe.
 Print Assumptions C09_collect_done_means_exact.
 Print Assumptions C09_collect_safe_pipeline.
